@@ -416,6 +416,10 @@ class MachineGen:
                 c["history"] = n.hist
                 if rng.random() < 0.4:
                     sibs = [x for x in n.parent.children if x.kind != "history"]
+                    if rng.random() < 0.4:
+                        # a default that names a state nested deeper inside the parent
+                        deep = [x for x in n.parent.walk() if x is not n.parent and x.kind != "history" and x.parent is not n.parent]
+                        sibs = deep or sibs
                     if sibs:
                         c["target"] = "#" + rng.choice(sibs).id
                 self.info["hist"].append(n.id)
@@ -569,7 +573,16 @@ class MachineGen:
         end = {"type": "final", "entry": [A(f"en.{cid}.end")]}
         if rng.random() < 0.6:
             end["output"] = {"from": cid}
-        cfg = {"id": cid, "initial": "run", "context": {"n": 0}, "states": {"run": run, "end": end}}
+        states = {"run": run, "end": end}
+        if rng.random() < 0.3:
+            # the child FAILS on its own: it reaches a state whose invoked service raises and declares no onError
+            logic["services"]["kfail"] = {"k": "sync", "plan": [{"dur": 0, "out": "raise", "yields": 0}]}
+            states["boom"] = {"entry": [A(f"en.{cid}.boom")], "invoke": {"src": "kfail", "id": f"{cid}_fail"}}
+            run.setdefault("after", {})
+            d_ = str(rng.choice((12, 22, 35)))
+            if d_ not in run["after"]:
+                run["after"][d_] = {"target": f"#{cid}.boom", "actions": [A(f"tr.{cid}.boom")]}
+        cfg = {"id": cid, "initial": "run", "context": {"n": 0}, "states": states}
         self.children[cid] = {"machine": cfg, "logic": logic}
         return cid
 
